@@ -634,7 +634,7 @@ impl Check for FileSinkCheck {
         30
     }
     fn required(&self, _tier: Tier) -> Vec<&'static str> {
-        vec!["fault:crash_at_write", "fault:kill_between_calls", "fault:torn_write", "fault:short_write", "fault:eintr_write", "crash_after_ack", "mode_cells"]
+        vec!["fault:crash_at_write", "fault:kill_between_calls", "fault:torn_write", "fault:short_write", "fault:eintr_write", "fault:write_error", "crash_after_ack", "mode_cells"]
     }
     fn run(&self, src: &mut Src, ctx: &mut RunCtx) -> RunResult {
         let sel = src.draw(31);
@@ -754,6 +754,11 @@ pub fn crash_child(args: &[String]) -> i32 {
                 plan.eintr_at_write = Some(n - writes_done);
             }
         }
+        if let Some((n, e)) = p.write_error {
+            if n >= writes_done {
+                plan.fail_at_write = Some((n - writes_done, e));
+            }
+        }
         plan
     };
     // Acknowledged = consumed when work() returned (written while disarmed).
@@ -820,8 +825,16 @@ pub fn crash_child(args: &[String]) -> i32 {
                 let r = b.work();
                 let after = port.backlog();
                 let st = sys::disarm();
-                writes_done += st.writes + st.eintr;
+                writes_done += st.writes + st.eintr + st.write_errors;
                 if r.is_err() {
+                    if st.write_errors > 0 {
+                        // The injected ENOSPC/EIO came back as an error value:
+                        // fine. What the failed call consumed is acknowledged
+                        // all the same (the samples are gone from the stream).
+                        consumed += before - after;
+                        let _ = std::fs::write(&ack_path, consumed.to_string());
+                        std::process::exit(4);
+                    }
                     std::process::exit(3);
                 }
                 consumed += before - after;
@@ -848,6 +861,9 @@ struct CrashParams {
     /// Die right after the k-th work() call returned (and was acknowledged):
     /// a kill between two calls, when nothing is inside a system call.
     kill_after_work: Option<usize>,
+    /// The n-th write() fails with ENOSPC / EIO (sample sink only: the packet
+    /// sink can only look at a packet by popping it).
+    write_error: Option<(usize, i32)>,
 }
 
 impl CrashParams {
@@ -884,7 +900,12 @@ impl CrashParams {
         let write_chunks = if src.chance(1, 3) { gen_chunks(src, 1) } else { vec![] };
         let pre = mode != 0;
         let kill_after_work = if crash.is_none() && src.chance(2, 3) { Some(src.below(6)) } else { None };
-        Self { mode, nocopy, stream, n, seed, crash, eintr, write_chunks, pre, kill_after_work }
+        let write_error = if crash.is_none() && kill_after_work.is_none() && !nocopy && src.chance(1, 2) {
+            Some((src.below(6), *src.pick(&[libc::ENOSPC, libc::EIO])))
+        } else {
+            None
+        };
+        Self { mode, nocopy, stream, n, seed, crash, eintr, write_chunks, pre, kill_after_work, write_error }
     }
     fn data(&self) -> Vec<u8> {
         let mut r = crate::src::Rng::new(self.seed);
@@ -922,7 +943,7 @@ fn crash_run(src: &mut Src, ctx: &mut RunCtx) -> RunResult {
     if p.pre {
         std::fs::write(&path, &pre).map_err(|e| Violation::new("HARNESS-PANIC write", e.to_string()))?;
     }
-    let desc = format!("{} mode {} n {} crash {:?} kill_after_work {:?} eintr {:?} write_chunks {:?}", if p.nocopy { "NoCopyFileSink" } else { "FileSink" }, ["Create", "Overwrite", "Append"][p.mode], p.n, p.crash, p.kill_after_work, p.eintr, p.write_chunks);
+    let desc = format!("{} mode {} n {} crash {:?} kill_after_work {:?} eintr {:?} write_error {:?} write_chunks {:?}", if p.nocopy { "NoCopyFileSink" } else { "FileSink" }, ["Create", "Overwrite", "Append"][p.mode], p.n, p.crash, p.kill_after_work, p.eintr, p.write_error, p.write_chunks);
     ctx.ev(|| desc.clone());
     if ctx.sample.is_none() {
         ctx.sample = Some(json!({"crash_run": desc}));
@@ -935,7 +956,14 @@ fn crash_run(src: &mut Src, ctx: &mut RunCtx) -> RunResult {
         .output()
         .map_err(|e| Violation::new("HARNESS-PANIC spawn", e.to_string()))?;
     use std::os::unix::process::ExitStatusExt;
-    let killed = out.status.signal() == Some(libc::SIGKILL);
+    let write_failed = out.status.code() == Some(4);
+    if write_failed {
+        ctx.count("fault:write_error");
+        ctx.nontrivial = true;
+    }
+    // An injected write error ends the run like a kill does: the file must be
+    // a prefix holding at least everything consumed, the failed call included.
+    let killed = out.status.signal() == Some(libc::SIGKILL) || write_failed;
     let code = out.status.code();
     if !killed && code != Some(0) {
         let err = String::from_utf8_lossy(&out.stderr);
@@ -983,7 +1011,7 @@ fn crash_run(src: &mut Src, ctx: &mut RunCtx) -> RunResult {
     if file.len() < base.len() + ack_bytes {
         return Err(Violation::new(
             "C17:acknowledged-data-missing",
-            format!("{desc}: {} items were consumed by completed work() calls ({ack_bytes} bytes), but the file holds only {} bytes of new data after the kill", ack, file.len().saturating_sub(base.len())),
+            format!("{desc}: {} items were consumed by completed work() calls ({ack_bytes} bytes), but the file holds only {} bytes of new data after the kill / failed write", ack, file.len().saturating_sub(base.len())),
         ));
     }
     if killed && ack > 0 {
